@@ -126,7 +126,7 @@ PROPS = {
         module="Evl.Props.C01",
         theorems=["Evl.C01.order", "Evl.C01.unstarted_empty", "Evl.C01.complete", "Evl.C01.selection", "Evl.C01.selection_once",
                   "Evl.C01.stopIndex_eq", "Evl.C03.on_source"],
-        runs=[DISPATCH_RUN, REGISTRY_RUN], oracle_prefixes=["C01"], models=["M2 Dispatch", "M1 Registry"],
+        runs=[DISPATCH_RUN, REGISTRY_RUN, race_run("typehook", 6, 60, 20)], oracle_prefixes=["C01"], models=["M2 Dispatch", "M1 Registry"],
         trusted_base=TB_COMMON, assumptions=DISPATCH_ASSUME + M1_ASSUME + ["the identity of the event handed from node k to node k+1 is checked by the harness oracle on the implementation, not carried by the Lean model"],
         rule=DISPATCH_RULE + " || " + M1_RULE,
     ),
@@ -141,7 +141,7 @@ PROPS = {
         module="Evl.Props.C03",
         theorems=["Evl.C03.progress", "Evl.C03.prompt", "Evl.C03.measure_decreases", "Evl.C03.terminates", "Evl.C03.clean",
                   "Evl.C03.no_send_on_closed", "Evl.C03.closed_is_final", "Evl.C03.done_matches_add", "Evl.C03.add_is_safe", "Evl.C03.send_holds_no_lock", "Evl.C03.on_source"],
-        runs=[DISPATCH_RUN, DISPATCH_RUN_2CPU], oracle_prefixes=["C03"], models=["M2 Dispatch"],
+        runs=[DISPATCH_RUN, DISPATCH_RUN_2CPU, REGISTRY_RUN], oracle_prefixes=["C03"], models=["M2 Dispatch", "M1 Registry (Sends after arbitrary registry histories: no panic, Send returns)"],
         trusted_base=TB_COMMON,
         assumptions=DISPATCH_ASSUME + ["partial: wall-clock promptness is measured by the harness (Send must return within 0.5 s of a cancel while nodes are held) but not part of any theorem; `prompt` is an enabledness statement"],
         rule=DISPATCH_RULE,
@@ -185,7 +185,7 @@ PROPS = {
         module="Evl.Props.C06",
         theorems=["Evl.C06.refs_eq_listing", "Evl.C06.inUse_iff", "Evl.C06.listed_registered", "Evl.C06.removeNode_inUse",
                   "Evl.C06.removeNode_free", "Evl.C06.rpan_effect", "Evl.C06.close_once"],
-        runs=[REGISTRY_RUN], oracle_prefixes=["C06"], models=["M1 Registry"],
+        runs=[REGISTRY_RUN, race_run("typehook", 6, 60, 20)], oracle_prefixes=["C06"], models=["M1 Registry"],
         trusted_base=TB_COMMON, assumptions=M1_ASSUME, rule=M1_RULE,
     ),
     "C07": dict(
@@ -250,9 +250,10 @@ PROPS = {
         rule="payloads from a JSON-value generator (nil, bools, large ints, floats incl. NaN/Inf, strings built from control / HTML / multi-byte / U+2028/9 / invalid UTF-8 pieces, nested slices and maps to depth 3; unencodable values of seven kinds: channels, functions, failing MarshalJSON / MarshalText (value and map key), invalid RawMessage, invalid json.Number; zero and zoned creation times) x event types with special characters x JSONFormatter / JSONFormatterFilter with predicate absent/keep/drop/error, eventlogger.Filter; the stored bytes are compared byte for byte with the model's rendering; non-trivial = a container or multi-token payload, distinct by op line",
     ),
     "C18": dict(
-        module="Evl.Props.C18Verify",
+        module="Evl.Props.C18Text",
         theorems=["Evl.C18.reject", "Evl.C18.process_valid", "Evl.C18.sign_failure", "Evl.C18.signed", "Evl.C18.unlisted_not_signed",
-                  "Evl.CloudEvents.b64dec_b64", "Evl.CloudEvents.doc_render", "Evl.C18.signed_verifies", "Evl.C18.unsigned_bytes", "Evl.C18.signed_document_verifies"],
+                  "Evl.CloudEvents.b64dec_b64", "Evl.CloudEvents.doc_render", "Evl.C18.signed_verifies", "Evl.C18.unsigned_bytes", "Evl.C18.signed_document_verifies",
+                  "Evl.CloudEvents.compact_indent", "Evl.CloudEvents.text_compacts", "Evl.C18.signed_text_verifies", "Evl.C18.signed_text_document_verifies"],
         runs=[dict(model="ce", sub="ce", driver="ce", quick=["-n", "5000"], thorough=["-n", "200000"], search=["-n", "50000"])],
         oracle_prefixes=["C18"], models=["M8b CloudEvents", "M8 Json", "M8r JsonParse", "M8v CloudEventsVerify"],
         trusted_base=TB_COMMON,
